@@ -286,7 +286,7 @@ Section Sim2.
     destruct (nargs_sim d f3 ps (fun e => QE f3 e ps) (fun e st0 p0 Hs0 => HE3 e st0 ps p0 Hs0) (s "range") _ _ native_sig_range args st pvals Hs Ea)
       as (vals & st1 & E1 & Hx1 & Hv).
     rewrite (E1 (native d f3 (s "range"))).
-    assert (Hfin : forall a b c (K : res (value * state)), qrange_items a b c = Ok pitems -> hint = (if c =? 0 then 0 else Z.quot (b - a) c) ->
+    assert (Hfin : forall a b c (K : res (value * state)), qrange_items a b c = Ok pitems -> hint = range_len a b c ->
               K = match d with Asp => Ok (VRange a b c, st1) | Py => rbind (range_items d a b c) (fun items => Ok (new_list items st1)) end ->
               exists itv st2 items, rbind K (fun '(obj, st0) => Ok (obj, st0)) = Ok (itv, st2) /\ xle st st2 /\ iter_items d st2 itv = Ok items
                 /\ vrels d (hp st2) pitems items /\ comp_hint itv items = match d with Asp => hint | Py => Z.of_nat (length items) end).
